@@ -96,3 +96,14 @@ Theorem C03_chord_export_verbatim : forall D notes, notes <> [] -> chord_ok D no
   kern_tokenize all_cats (TChord (str (print_chord notes)) (map (chord_note D) notes)) = Ok (str (print_chord notes)).
 Proof. exact kern_export_canonical_chord. Qed.
 Print Assumptions C03_chord_export_verbatim.
+
+(* DOCUMENT level, single-spine **kern documents: whatever the cells are (notes, rests, chords, barlines,
+   interpretations - any cell the importer accepts that is no header, spine operator or comment), the default export is
+   the header, then for every line the export of the token of that line's cell, in order, then the terminator: nothing
+   dropped, invented or moved (cells whose token is hidden or exports to a null are outside this statement) *)
+From KV Require Import SingleSpineProofs.
+Theorem C03_single_spine_export_is_cell_by_cell : forall bad cells toks outs,
+  Forall2 (fun c t => plain_cell c /\ import_cell bad "**kern" c = RTok t) cells toks -> Forall2 good toks outs ->
+  exists s, run_rows bad init_state (one_spine cells) = IOk s /\ export_rows (i_doc s) default_opts = Ok (one_spine outs).
+Proof. exact one_spine_export. Qed.
+Print Assumptions C03_single_spine_export_is_cell_by_cell.
